@@ -11,7 +11,23 @@ import enum
 from bitarray import bitarray
 from vf.api import Case, T, AND, OR, NOT, IMPLIES, IFF, EQ
 from props.pdu_common import feq, public_fields
-from okdmr.dmrlib.etsi.crc.crc import BitCrcCalculator, Crc16, Crc9
+import datetime as _dt
+import inspect
+import sys
+import time as _time
+from okdmr.dmrlib.etsi.crc.crc import BitCrcCalculator, BitCrcConfiguration, Crc16, Crc9
+from okdmr.dmrlib.utils.bits_bytes import bytes_to_bits, byteswap_bytes
+from okdmr.dmrlib.etsi.layer2.elements.sync_patterns import SyncPatterns
+from okdmr.dmrlib.etsi.layer2.elements.data_types import DataTypes
+from okdmr.dmrlib.etsi.layer2.elements.csbk_opcodes import CsbkOpcodes
+from okdmr.dmrlib.etsi.layer2.elements.data_packet_formats import DataPacketFormats
+from okdmr.dmrlib.etsi.layer2.elements.sap_identifier import SAPIdentifier
+from okdmr.dmrlib.etsi.layer2.elements.full_message_flag import FullMessageFlag
+from okdmr.dmrlib.etsi.layer2.pdu.rate34_data import Rate34Data
+from okdmr.dmrlib.etsi.layer2.pdu.rate1_data import Rate1Data
+from okdmr.dmrlib.etsi.layer3.pdu.udp_ipv4_compressed_header import UDPIPv4CompressedHeader
+from okdmr.dmrlib.etsi.layer3.elements.service_options import ServiceOptions
+from okdmr.dmrlib.hytera.pdu.radio_control_protocol import RadioControlProtocol, RCPOpcode
 from okdmr.dmrlib.etsi.crc.crc8 import CRC8
 from okdmr.dmrlib.etsi.crc.crc9 import CRC9
 from okdmr.dmrlib.etsi.crc.crc16 import CRC16
@@ -83,6 +99,53 @@ def _ars(hx, t):
     return (bytes([0, 2, 0xBF, hx.int(7, t + "r") | 1]),)
 
 
+def _ipsc(hx, t):
+    from props import C13
+    frame, _f = C13.build_frame(hx, C13.SlotType.VoiceFrameA.value, C13.Timeslot.Timeslot_1.value, list(C13.CallType)[0].value, list(C13.PacketType)[0].value,
+                                C13.FrameType.Voice.value, pfx=t + ".")
+    return (frame,)
+
+
+def _bptc_rx(hx, t):
+    """a received BPTC word: a codeword of a symbolic message with up to two inverted bits (concrete positions, symbolic presence)"""
+    w = BPTC19696.encode(hx.ba(96, t))
+    w[7] ^= hx.bit(t + ".e1")
+    w[100] ^= hx.bit(t + ".e2")
+    return (w,)
+
+
+def _data_burst_rx(hx, t):
+    b = Burst(burst_type=BurstTypes.DataAndControl)
+    b.has_emb = False
+    b.sync_or_embedded_signalling = SyncPatterns.BsSourcedData
+    b.slot_type = SlotType(colour_code=hx.int(4, t + ".cc"), data_type=DataTypes.CSBK)
+    b.data = CSBK(csbko=CsbkOpcodes.PreambleCSBK, source_address=hx.int(24, t + ".s"), target_address=hx.int(24, t + ".t"), blocks_to_follow=hx.int(8, t + ".n"),
+                  target_address_is_individual=True, last_block=True)
+    bits = b.as_bits()
+    bits[40] ^= hx.bit(t + ".e")
+    return (bits,)
+
+
+def _default_data_header(llid):
+    return DataHeader(dpf=DataPacketFormats.DataPacketUnconfirmed, sap_identifier=SAPIdentifier.ShortData, llid_destination=llid, llid_source=1, blocks_to_follow=1, pad_octet_count=0,
+                      full_message_flag=FullMessageFlag.FirstTryToCompletePacket).as_bits()
+
+
+def _default_rcp():
+    return RadioControlProtocol(opcode=RCPOpcode.StatusChangeNotificationRequest).as_bytes()
+
+
+def _lrrp_with(v):
+    from okdmr.dmrlib.motorola.lrrp import LRRP
+    from okdmr.dmrlib.motorola.mbxml import MBXMLDocumentIdentifier
+    doc = LRRP(document_id=MBXMLDocumentIdentifier.LRRP_ImmediateLocationRequest_NCDT)
+    doc.parts.append(doc.get_token(0x22, v, {}, True))
+    return doc
+
+
+REV_IN = BitCrcConfiguration(width_bits=16, polynomial=0x1021, init_value=0, final_xor_value=0, reverse_input_bytes=True, reverse_output_bytes=False)
+REV_IO = BitCrcConfiguration(width_bits=16, polynomial=0x1021, init_value=0xFFFF, final_xor_value=0, reverse_input_bytes=True, reverse_output_bytes=True)
+
 ENTRY = {
     # family CRC
     "CRC8.calculate": ("crc", CRC8.calculate, _bits(28)),
@@ -92,7 +155,22 @@ ENTRY = {
     "CRC9.calculate_from_parts": ("crc", lambda d: CRC9.calculate_from_parts(d, 3, CrcMasks.Rate12DataContinuation), _bytes(10)),
     "BitCrc16.bitwise": ("crc", lambda d: BitCrcCalculator(Crc16.ETSI_DMR, table_based=False).calculate_checksum(d), _bits(24)),
     "BitCrc9.table-partial": ("crc", lambda d: BitCrcCalculator(Crc9.ETSI_DMR, table_based=True).calculate_checksum(d), _bits(23)),
+    "CRC8.check": ("crc", lambda d: CRC8.check(d, 0x5A), _bits(28)),
+    "CRC32.check": ("crc", lambda d: CRC32.check(d, 0x12345678), _bytes(8)),
+    "CRC9.calculate": ("crc", lambda d: CRC9.calculate(d, CrcMasks.Rate12DataContinuation), _bits(87)),
+    "BitCrc16.reverse-input-bytes": ("crc", lambda d: BitCrcCalculator(REV_IN).calculate_checksum(d), _bits(24)),
+    "BitCrc16.reverse-io-bytes.table": ("crc", lambda d: BitCrcCalculator(REV_IO, table_based=True).calculate_checksum(d), _bits(24)),
+    "bytes_to_bits": ("crc", bytes_to_bits, _bytes(3)),
+    "byteswap_bytes": ("crc", byteswap_bytes, _bytes(4)),
     # family FEC
+    "BPTC19696.decode.received-word-with-errors": ("fec", lambda w: BPTC19696.deinterleave_data_bits(w, True), _bptc_rx),
+    "BPTC19696.deinterleave_all_bits": ("fec", BPTC19696.deinterleave_all_bits, _bits(196)),
+    "Hamming16114.check": ("fec", lambda w: Hamming16114.check(w), _bits(16)),
+    "QR1676.check": ("fec", QuadraticResidue1676.check, _bits(16)),
+    "VBPTC12873.extract": ("fec", VBPTC12873.deinterleave_data_bits, _bits(128)),
+    "VBPTC6828.extract": ("fec", VBPTC6828.deinterleave_data_bits, _bits(68)),
+    "VBPTC3211.extract": ("fec", VBPTC3211.deinterleave_data_bits, _bits(32)),
+    "RS1294.check": ("fec", lambda w: ReedSolomon1294.check(w, b"\x96\x96\x96"), _bytes(12)),
     "Hamming15113.generate": ("fec", lambda m: Hamming15113.generate(m), _bits(11)),
     "Hamming15113.check": ("fec", lambda w: Hamming15113.check(w), _bits(15)),
     "Hamming16114.generate": ("fec", lambda m: Hamming16114.generate(m), _bits(11)),
@@ -114,19 +192,319 @@ ENTRY = {
     "PIHeader.from_bits": ("pdu", PIHeader.from_bits, _bits(96)),
     "ShortLC.from_bits": ("pdu", lambda b: ShortLinkControl.from_bits(bitarray("0000") + b), lambda hx, t: (hx.ba(32, t),)),
     "Rate12Data.from_bits": ("pdu", Rate12Data.from_bits, _bits(96)),
+    "CSBK.decode-encode": ("pdu", lambda b: CSBK.from_bits(bitarray("10111101") + bitarray("00000000") + b).as_bits(), lambda hx, t: (hx.ba(80, t),)),
+    "DataHeader.decode-encode": ("pdu", lambda b: DataHeader.from_bits(bitarray("00000010") + bitarray("1010") + b).as_bits(), lambda hx, t: (hx.ba(84, t),)),
+    "FullLC77.from_bits": ("pdu", lambda b: FullLinkControl.from_bits(bitarray("00000000") + bitarray("00000000") + b), lambda hx, t: (hx.ba(61, t),)),
+    "Rate34Data.from_bits": ("pdu", Rate34Data.from_bits, _bits(144)),
+    "Rate1Data.from_bits": ("pdu", Rate1Data.from_bits, _bits(192)),
+    "UDPIPv4.from_bits": ("pdu", UDPIPv4CompressedHeader.from_bits, _bits(56)),
+    "ServiceOptions(defaults).as_bits": ("pdu", lambda: ServiceOptions().as_bits(), lambda hx, t: ()),
+    "DataHeader(defaults).as_bits": ("pdu", _default_data_header, lambda hx, t: (hx.int(24, t),)),
+    "RCP(defaults).as_bytes": ("pdu", _default_rcp, lambda hx, t: ()),
     # family burst
+    "Burst.from_bits.data-with-error": ("burst", lambda b: Burst.from_bits(b, BurstTypes.DataAndControl), _data_burst_rx),
+    "Burst.from_bytes.voice": ("burst", lambda v: Burst.from_bytes(v, BurstTypes.Vocoder), lambda hx, t: (bytes(hx.bytes(13, t)) + bytes(7) + bytes(hx.bytes(13, t + "b")),)),
     "Burst()": ("burst", lambda: Burst(burst_type=BurstTypes.DataAndControl), lambda hx, t: ()),
     "Burst.from_bits.voice": ("burst", lambda v: Burst.from_bits(v[:108] + bitarray("0" * 48) + v[108:], BurstTypes.Vocoder), _bits(216)),
-    # family Hytera
+    # family Hytera (frames; the application PDUs of every implemented (service, opcode) are added below from props/C12.py)
     "HDAP.from_bytes.rrs": ("hytera", HDAP.from_bytes, _hdap_rrs),
     "HRNP.from_bytes": ("hytera", HRNP.from_bytes, _hrnp),
     "HSTRP.from_bytes": ("hytera", HSTRP.from_bytes, _hstrp),
+    "IPSC.burst-from-raw-frame": ("hytera", Burst.from_hytera_ipsc, _ipsc),
     # family Motorola
     "MBXML.from_bytes": ("motorola", MBXML.from_bytes, _mbxml),
     "MBXML.write_uintvar": ("motorola", MBXML.write_uintvar, lambda hx, t: (hx.int(10, t),)),
+    "MBXML.from_bytes.report": ("motorola", MBXML.from_bytes, lambda hx, t: (bytes([0x07, 6, 0x22, 3]) + hx.bytes(3, t) + bytes([0x37]),)),
+    "MBXML.decode-encode": ("motorola", lambda d: [MBXML.as_bytes(x) for x in MBXML.from_bytes(d)], _mbxml),
+    "LRRP.get_token": ("motorola", lambda v: MBXML.as_bytes(_lrrp_with(v)), lambda hx, t: (hx.bytes(2, t),)),
     "TMS.from_bytes": ("motorola", TextMessagingService.from_bytes, _tms),
     "ARS.from_bytes": ("motorola", AutomaticRegistrationService.from_bytes, _ars),
 }
+
+
+# ------------------------------------------------------------------------------------------------------------------------------
+# application PDUs of every implemented Hytera (service, opcode): frames as in props/C12.py (payload octets, reliable flag, checksum symbolic)
+def _add_hdap_entries():
+    from props import C12
+    from okdmr.dmrlib.hytera.pdu.hytera_service_type import HyteraServiceType
+    specs = dict(C12.SPECS["quick"])
+    S = lambda n: [None] * n
+    for nm in list(specs):
+        if nm.startswith(("RCP-StatusChangeNotificationRequest-5", "RCP-BroadcastStatusConfigurationRequest-5")):
+            # two symbolic dict entries: 1,200 paths per parse; replaced by the one-entry variants below
+            del specs[nm]
+    lp = [n for n in specs if n.startswith("LP-StandardReport-")]
+    for nm in lp[1:]:
+        del specs[nm]
+    for nm, tpl in (("StatusChangeNotificationRequest", [1] + S(2)), ("BroadcastStatusConfigurationRequest", [1] + S(2))):
+        if hasattr(RCPOpcode, nm):
+            v = getattr(RCPOpcode, nm).value
+            specs["RCP-%s-3" % nm] = ("RCP-%s-3" % nm, RadioControlProtocol, HyteraServiceType.RCP.value, v & 0xFF, v >> 8, "little", tpl)
+    for nm, spec in specs.items():
+        fam = "hytera-" + nm.split("-")[0]
+        ENTRY["HDAP:" + nm] = (fam, HDAP.from_bytes, (lambda spec: lambda hx, t: (C12.build_frame(hx, spec, t + "."),))(spec))
+
+
+_add_hdap_entries()
+
+
+# ------------------------------------------------------------------------------------------------------------------------------
+# wall clock and randomness: every library module that binds date / datetime / time() / the datetime or time module gets a fake whose
+# "now" is a fresh symbolic instant per call, so that  r1 == r0  also says "the result does not depend on the clock"
+class _DateMeta(type):
+    def __instancecheck__(cls, o):
+        return isinstance(o, _dt.date)
+
+
+class _DatetimeMeta(type):
+    def __instancecheck__(cls, o):
+        return isinstance(o, _dt.datetime)
+
+
+NOW = {}
+
+
+def _unmodelled(what):
+    from sxl.explore import Inconclusive
+    raise Inconclusive("symbolic clock: %s is not modelled" % what)
+
+
+class FakeDate(_dt.date, metaclass=_DateMeta):
+    @classmethod
+    def today(cls):
+        return NOW["date"]
+
+
+class FakeDatetime(_dt.datetime, metaclass=_DatetimeMeta):
+    @classmethod
+    def now(cls, tz=None):
+        return NOW["datetime"]
+
+    @classmethod
+    def utcnow(cls):
+        return NOW["datetime"]
+
+    @classmethod
+    def today(cls):
+        return NOW["datetime"]
+
+
+def _lex_lt(a, b):
+    """a < b lexicographically for equal-length tuples of (symbolic) ints"""
+    r = 0
+    for x, y in reversed(list(zip(a, b))):
+        r = OR(T(x < y), AND(T(x == y), r))
+    return r
+
+
+class _SymFields:
+    """mixin: calendar fields come from self._f (symbolic in the symbolic run); everything that would need the C-level fields is refused"""
+    def _t(self):
+        return tuple(self._f)
+
+    def _o(self, o):
+        if isinstance(o, _SymFields):
+            return o._t()
+        if isinstance(o, _dt.datetime):
+            return (o.year, o.month, o.day, o.hour, o.minute, o.second)[:len(self._f)]
+        if isinstance(o, _dt.date):
+            return (o.year, o.month, o.day)[:len(self._f)]
+        return None
+
+    def __eq__(self, o):
+        t = self._o(o)
+        if t is None or len(t) != len(self._f):
+            return False
+        return AND(*[T(x == y) for x, y in zip(self._t(), t)])
+
+    def __ne__(self, o):
+        return NOT(self.__eq__(o))
+
+    def __lt__(self, o):
+        return _lex_lt(self._t(), self._o(o))
+
+    def __gt__(self, o):
+        return _lex_lt(self._o(o), self._t())
+
+    def __le__(self, o):
+        return NOT(self.__gt__(o))
+
+    def __ge__(self, o):
+        return NOT(self.__lt__(o))
+
+    def __hash__(self):
+        return 0x434C4B
+
+    def strftime(self, *a):
+        _unmodelled("strftime")
+
+    def isoformat(self, *a, **k):
+        _unmodelled("isoformat")
+
+    def __format__(self, spec):
+        _unmodelled("format")
+
+    def __str__(self):
+        _unmodelled("str")
+
+    def __repr__(self):
+        return "<symbolic instant>"
+
+    def __sub__(self, o):
+        _unmodelled("date arithmetic")
+
+    def __rsub__(self, o):
+        _unmodelled("date arithmetic")
+
+    def __add__(self, o):
+        _unmodelled("date arithmetic")
+
+    def replace(self, *a, **k):
+        _unmodelled("replace")
+
+    def timetuple(self):
+        _unmodelled("timetuple")
+
+    def toordinal(self):
+        _unmodelled("toordinal")
+
+    def weekday(self):
+        _unmodelled("weekday")
+
+    def timestamp(self):
+        _unmodelled("timestamp")
+
+    year = property(lambda s: s._f[0])
+    month = property(lambda s: s._f[1])
+    day = property(lambda s: s._f[2])
+
+
+class SymDate(_SymFields, FakeDate):
+    def __new__(cls, f):
+        self = _dt.date.__new__(cls, 2000, 1, 1)
+        self._f = tuple(f)
+        return self
+
+
+class SymDatetime(_SymFields, FakeDatetime):
+    def __new__(cls, f):
+        self = _dt.datetime.__new__(cls, 2000, 1, 1)
+        self._f = tuple(f)
+        return self
+
+    hour = property(lambda s: s._f[3])
+    minute = property(lambda s: s._f[4])
+    second = property(lambda s: s._f[5])
+    microsecond = property(lambda s: 0)
+
+    def date(self):
+        return SymDate(self._f[:3])
+
+
+def fake_time():
+    return NOW["time"]
+
+
+class _ModProxy:
+    def __init__(self, real, **over):
+        self.__dict__["_real"] = real
+        self.__dict__.update(over)
+
+    def __getattr__(self, n):
+        return getattr(self._real, n)
+
+
+FAKE_DT_MODULE = _ModProxy(_dt, date=FakeDate, datetime=FakeDatetime)
+FAKE_TIME_MODULE = _ModProxy(_time, time=fake_time)
+
+
+def library_modules():
+    return [(n, m) for n, m in sorted(sys.modules.items()) if n.startswith("okdmr.dmrlib") and m is not None and ".tests" not in n]
+
+
+def install_clock():
+    undo = []
+    for n, mod in library_modules():
+        for k, v in list(vars(mod).items()):
+            new = None
+            if v is _dt.date:
+                new = FakeDate
+            elif v is _dt.datetime:
+                new = FakeDatetime
+            elif v is _time.time:
+                new = fake_time
+            elif v is _dt:
+                new = FAKE_DT_MODULE
+            elif v is _time:
+                new = FAKE_TIME_MODULE
+            if new is not None:
+                undo.append((mod, k, v))
+                setattr(mod, k, new)
+    return undo
+
+
+def uninstall_clock(undo):
+    for mod, k, v in undo:
+        setattr(mod, k, v)
+
+
+def set_clock(hx, tag):
+    """a fresh arbitrary instant (1970..2097, valid calendar fields); symbolic in the symbolic run, the model's values in the replay"""
+    y = 1970 + hx.int(7, tag + ".year")
+    mo = 1 + hx.int(4, tag + ".month")
+    d = 1 + hx.int(5, tag + ".day")
+    h, mi, se = hx.int(5, tag + ".hour"), hx.int(6, tag + ".minute"), hx.int(6, tag + ".second")
+    hx.assume(AND(mo <= 12, d <= 28, h <= 23, mi <= 59, se <= 59))
+    NOW["time"] = hx.int(31, tag + ".epoch")
+    if hx.symbolic:
+        NOW["date"] = SymDate((y, mo, d))
+        NOW["datetime"] = SymDatetime((y, mo, d, h, mi, se))
+    else:
+        NOW["date"] = FakeDate(int(y), int(mo), int(d))
+        NOW["datetime"] = FakeDatetime(int(y), int(mo), int(d), int(h), int(mi), int(se))
+
+
+# ------------------------------------------------------------------------------------------------------------------------------
+# mutable default arguments of the library (found by introspection of the current source): no call may change them
+def mutable_defaults():
+    out = []
+    seen = set()
+    for n, mod in library_modules():
+        owners = [(n, mod)] + [(n + "." + c.__name__, c) for c in vars(mod).values() if inspect.isclass(c) and c.__module__ == n]
+        for oname, owner in owners:
+            for fname, f in list(vars(owner).items()):
+                f = getattr(f, "__func__", f)
+                if not inspect.isfunction(f) or id(f) in seen:
+                    continue
+                seen.add(id(f))
+                ds = list(f.__defaults__ or ()) + list((f.__kwdefaults__ or {}).values())
+                for i, d in enumerate(ds):
+                    if isinstance(d, (list, dict, set, bytearray, bitarray)) or (hasattr(d, "__dict__") and not inspect.isclass(d) and not callable(d) and not isinstance(d, enum.Enum) and not inspect.ismodule(d)):
+                        out.append(("%s.%s default #%d" % (oname.replace("okdmr.dmrlib.", ""), fname, i), d))
+    return out
+
+
+def freeze(d):
+    if isinstance(d, bitarray):
+        return d.copy()
+    if isinstance(d, dict):
+        return dict(d)
+    if isinstance(d, (list, set)):
+        return list(d)
+    if isinstance(d, bytearray):
+        return bytes(d)
+    if hasattr(d, "as_bytes"):
+        st = None
+        try:
+            return ("bytes", d.as_bytes())
+        except Exception:
+            pass
+    return ("vars", dict(vars(d)))
+
+
+def defaults_unchanged(hx, snap, after):
+    for (name, d), old in snap:
+        hx.prove(same_value(freeze(d), old), "%s: the mutable default argument %s still has its import-time value" % (after, name))
 
 
 def snapshot_args(args):
@@ -178,10 +556,11 @@ def same_value(a, b, depth=0):
     return T(r)
 
 
-def call(hx, name, tag):
+def call(hx, name, tag, clock):
     fam, fn, gen = ENTRY[name]
     args = gen(hx, tag)
     keep = snapshot_args(args)
+    set_clock(hx, clock)
     st, r = hx.guard(fn, *args)
     for x, y in zip(args, keep):
         if isinstance(x, (bitarray, bytearray)):
@@ -190,12 +569,22 @@ def call(hx, name, tag):
 
 
 def h_pair(hx, g, f, extra=None):
-    s0, r0 = call(hx, g, "B")
-    call(hx, f, "A")
+    undo = install_clock()
+    try:
+        pair_body(hx, g, f, extra)
+    finally:
+        uninstall_clock(undo)
+
+
+def pair_body(hx, g, f, extra):
+    snap = [((n, d), freeze(d)) for n, d in mutable_defaults()]
+    s0, r0 = call(hx, g, "B", "clock0")
+    call(hx, f, "A", "clock1")
+    defaults_unchanged(hx, snap, "after %s and %s" % (g, f))
     if extra:
-        call(hx, extra, "C")
-    s1, r1 = call(hx, g, "B")
-    what = "%s, then %s%s, then %s again" % (g, f, (" and " + extra) if extra else "", g)
+        call(hx, extra, "C", "clock2")
+    s1, r1 = call(hx, g, "B", "clock3")
+    what = "%s, then %s%s, then %s again (each call at its own arbitrary wall-clock instant)" % (g, f, (" and " + extra) if extra else "", g)
     hx.prove(s0 == s1, "%s: the same arguments succeed / fail the same way" % what)
     if s0 == "ok" and s1 == "ok":
         hx.prove(same_value(r0, r1), "%s: same result for the same arguments" % what)
